@@ -1048,6 +1048,12 @@ class ListProxy(BaseProxy):
         self._callmethod('__imul__', (value,))
         return self
 
+    def __iter__(self):
+        # Iterate over a snapshot. Without this, iteration falls back to `__getitem__(0)`,
+        # `__getitem__(1)`, ... against the live list, one call each; `lst.extend(lst)` (the
+        # server then iterates a proxy of the very list it is extending) would never end.
+        return iter(self._callmethod('__getitem__', (slice(None),)))
+
 
 # Changes to the standard version:
 #   - remove method `__iter__`
